@@ -12,7 +12,8 @@
 
   OBLIGATIONS (checked by the harness):
     hints_table nonmatching_passthrough nonmatching_template_irrelevant
-    declaration_order_pipeline pipeline_stages single_template_is_tree_rewrite first_match_wins
+    declaration_order_pipeline pipeline_stages single_template_is_tree_rewrite select_returns_parts
+    first_match_wins
     identity_body_is_identity
     identity_templates_passthrough filter_terminates render_declarations_first
     once_hint_irrelevant buffer_hint_irrelevant lazy_eq_eager window_footprint
@@ -107,6 +108,16 @@ theorem single_template_is_tree_rewrite {σ : Type} (t : MT σ) (b : σ) (i : Na
     (h : run f i (some (i + 1)) (evItems (flattenList ns)) M = some r) :
     r.2 = specList t b anc ns ∧ SlotAt i t b anc r.1 :=
   stage_is_spec t b i hl ho f ns anc M r hns hslot h
+
+/-- **select() returns the matched element's parts.**  On the content `<tg …>kids</tg>` of a matched
+    element, `select('.')` is the whole element and each child path (`node()`, `*`, `text()`,
+    `*|text()`, `name`) yields the flattening of exactly the children its node test accepts, in
+    document order — the XPath reading of these paths on the element as context node. -/
+theorem select_returns_parts (s : Sel) (tg : QName) (at_ : AttrList) (kids : List Node) (hk : okList kids = true) :
+    select s (Event.start tg at_ :: flattenList kids ++ [Event.end_ tg]) =
+      if s.depth = 0 then Event.start tg at_ :: flattenList kids ++ [Event.end_ tg]
+      else flattenList (kids.filter s.keeps) :=
+  select_on_tree s tg at_ kids hk
 
 /-- The template that fires is the first of the window, in declaration order, whose test accepts
     the START; every earlier one of the window was asked and declined. -/
